@@ -214,15 +214,10 @@ func getUniqueKey(individualMap map[string]*gedcom.IndividualNode, s string, pla
 }
 
 func surnameStartsWith(individual *gedcom.IndividualNode, letter rune) bool {
-	name := individual.Name().Format(gedcom.NameFormatIndex)
-	if name == "" {
-		name = "#"
-	}
-
-	lowerName := strings.ToLower(name)
-	firstLetter := rune(lowerName[0])
-
-	return firstLetter == letter
+	// This has to be the letter that the list pages are made for (see
+	// GetIndexLetters), otherwise somebody without a surname, or with a
+	// surname that does not start with a-z, is listed on no page at all.
+	return getIndexLetter(individual) == letter
 }
 
 func individualForNode(doc *gedcom.Document, node gedcom.Node) *gedcom.IndividualNode {
